@@ -866,7 +866,16 @@ def kCallingConv : List Bytes :=
    [97, 97, 114, 99, 104, 54, 52, 95, 115, 118, 101, 95, 118, 101, 99, 116, 111, 114, 95, 112, 99, 115],
    [97, 109, 100, 103, 112, 117, 95, 103, 102, 120]]
 
-def kLead : List Bytes := kLinkage ++ kPreemption ++ kVisibility ++ kDLL ++ kCallingConv
+/-- enum.ReturnAttr: the return attributes that are bare keywords (`define noundef signext i32 @f()`; ir.Func.ReturnAttrs, a LIST: repeats and any order are kept) -/
+def kRetAttr : List Bytes :=
+  [[105, 110, 114, 101, 103],
+   [110, 111, 97, 108, 105, 97, 115],
+   [110, 111, 110, 110, 117, 108, 108],
+   [110, 111, 117, 110, 100, 101, 102],
+   [115, 105, 103, 110, 101, 120, 116],
+   [122, 101, 114, 111, 101, 120, 116]]
+
+def kLead : List Bytes := kLinkage ++ kPreemption ++ kVisibility ++ kDLL ++ kCallingConv ++ kRetAttr
 
 /-! the clauses of a function header BEHIND the parameter list (ir/func.go headerString): `unnamed_addr` / `local_unnamed_addr`, `addrspace(N)`, the function attributes
     that are bare keywords, `section "s"`, `partition "p"`, `align N`, `gc "g"` — each preceded by one space -/
@@ -1007,13 +1016,14 @@ structure Func where
   tail : HTail := {}
 
 
-/-- the family a position of `kLead` belongs to: linkage 0, preemption 1, visibility 2, DLL storage class 3, calling convention 4 -/
+/-- the family a position of `kLead` belongs to: linkage 0, preemption 1, visibility 2, DLL storage class 3, calling convention 4, return attribute 5 -/
 def leadFamily (i : Nat) : Nat :=
   if i < kLinkage.length then 0
   else if i < kLinkage.length + kPreemption.length then 1
   else if i < kLinkage.length + kPreemption.length + kVisibility.length then 2
   else if i < kLinkage.length + kPreemption.length + kVisibility.length + kDLL.length then 3
-  else 4
+  else if i < kLinkage.length + kPreemption.length + kVisibility.length + kDLL.length + kCallingConv.length then 4
+  else 5
 
 def sDefine : Bytes := [100, 101, 102, 105, 110, 101, 32]     -- "define "
 def sOpen : Bytes := [41, 32, 123]                             -- ") {"
@@ -1652,8 +1662,14 @@ def padsOK (f : Func) : Bool :=
     | some (_, want), some x => (match defRow f x with | some r => r == want | none => false)
     | _, _ => true
 
-/-- at most one keyword of each family, the families in the order of the grammar (a repeated or misplaced keyword is a syntax error) -/
-def leadOK (xs : List Nat) : Bool := xs.all (fun i => decide (i < kLead.length)) && strictAsc (xs.map leadFamily)
+/-- the families in the order of the grammar; at most one keyword of each of the families 0–4, any number of return attributes (family 5: `ReturnAttrs=ReturnAttribute*`) -/
+def leadAsc : List Nat → Bool
+  | [] => true
+  | [_] => true
+  | a :: b :: r => (decide (a < b) || (a == 5 && b == 5)) && leadAsc (b :: r)
+
+/-- at most one keyword of each family but the return attributes, the families in the order of the grammar (a repeated or misplaced keyword is a syntax error) -/
+def leadOK (xs : List Nat) : Bool := xs.all (fun i => decide (i < kLead.length)) && leadAsc (xs.map leadFamily)
 
 /-- the parser on a function definition (asm/local.go): scaffold and AssignIDs (nameless values are numbered, written IDs validated), duplicate
     definitions, undefined uses, label operands that are not blocks (asm/helper.go irBlock); then the operand types -/
